@@ -3,6 +3,7 @@ pub mod c05race;
 pub mod c09;
 pub mod c10;
 pub mod c12;
+pub mod c13;
 pub mod c17;
 pub mod c18;
 pub mod c19;
@@ -12,6 +13,10 @@ pub mod histchecks;
 pub mod monitors;
 
 use crate::report::Check;
+
+pub fn c12_erase(s: &str) -> String {
+    c12::erase_ids(s)
+}
 
 pub fn by_id(id: &str) -> Option<Box<dyn Check>> {
     match id {
@@ -24,6 +29,7 @@ pub fn by_id(id: &str) -> Option<Box<dyn Check>> {
         "C18" => Some(Box::new(c18::C18)),
         "C17" => Some(Box::new(c17::C17)),
         "C12" => Some(Box::new(c12::C12)),
+        "C13" => Some(Box::new(c13::C13)),
         "C10" => Some(Box::new(c10::C10)),
         "C11" => Some(Box::new(histchecks::HistCheck { prop: "C11" })),
         "C08" => Some(Box::new(histchecks::HistCheck { prop: "C08" })),
